@@ -23,6 +23,9 @@ pub enum Step {
     Recreate(u8),
     /// an operation on another part of the store
     Noise(Noise),
+    /// a crowd: `n` registrations in a row for one document, peers `start .. start + n` (up to 600 distinct peers, so that
+    /// any byte-sized or table-wide counter shows), compared once at the end of the burst
+    Burst(u8, u16, u16),
 }
 
 #[derive(Serialize, Deserialize, Clone, Debug)]
@@ -39,6 +42,14 @@ pub struct Case {
     /// first, put into the peers table with plain redb before the store is opened for the history
     #[serde(default)]
     pub earlier: Vec<(u8, u8)>,
+}
+
+fn peer16(i: u16) -> [u8; 32] {
+    let mut p = peer(i as u8);
+    if i >= 256 {
+        p[1] = (i >> 8) as u8;
+    }
+    p
 }
 
 fn peer(i: u8) -> [u8; 32] {
@@ -74,6 +85,8 @@ impl Prop for C17 {
             1 => (0u8..3).prop_map(Step::Recreate),
             3 => crate::gen::noise().prop_map(Step::Noise),
         ];
+        let burst = (0u8..3, prop_oneof![Just(0u16), 0u16..400], prop_oneof![Just(255u16), Just(256), Just(257), 6u16..600]).prop_map(|(d, s, n)| Step::Burst(d, s, n));
+        let step = prop_oneof![400 => step, 1 => burst];
         (
             prop::bool::weighted(0.3),
             1u8..=3,
@@ -176,6 +189,23 @@ impl Prop for C17 {
                         }
                     }
                     Step::Read(_) => {}
+                    Step::Burst(d, start, n) => {
+                        let d = *d as usize % docs.len();
+                        if exists[d] {
+                            for j in 0..*n {
+                                let pr = peer16(start.wrapping_add(j) % 700);
+                                es(st.store.register_useful_peer(docs[d], pr))?;
+                                let m = &mut model[d];
+                                if let Some(pos) = m.iter().position(|x| *x == pr) {
+                                    m.remove(pos);
+                                }
+                                m.insert(0, pr);
+                                m.truncate(5);
+                            }
+                            o.class("burst-of-registrations(up-to-600-distinct-peers)");
+                            o.nontrivial = true;
+                        }
+                    }
                     Step::Noise(nz) => {
                         if let Err(e) = apply_noise(&ctx.rt, &mut st.store, nz, &mut noise_state) {
                             o.fail("C17/noise", format!("step {i} {:?}: {e}", nz));
